@@ -595,3 +595,102 @@ func runC10(w *c10World) error {
 	}
 	return nil
 }
+
+// TestC10ConcurrentStreams: several channels decode long runs of the same message type at the same
+// time (truncated and full payloads mixed); every frame event must carry exactly the content that
+// arrived on its own channel, in order.
+func TestC10ConcurrentStreams(t *testing.T) {
+	rec := evid.New(t, "C10", "2..4 custom channels each streaming 200..600 tagged DEBUG frames (every other one with a zero-truncated payload) in large chunks from parallel feeders, consumer fast or sleeping: per channel the frame events must be exactly that channel's frames in order (content decoded on one channel must never show bytes that arrived on another); non-trivial = >=3 channels; distinct by hash of the parameters")
+	rec.Require("3+channels")
+	evid.Check(t, rec, evid.N(40, 200), func(t *rapid.T) {
+		nch := rapid.IntRange(2, 4).Draw(t, "nch")
+		nfr := rapid.IntRange(200, 600).Draw(t, "frames")
+		chunk := rapid.IntRange(16, 400).Draw(t, "chunk")
+		v2 := rapid.IntRange(0, 4).Draw(t, "v2") > 0
+		slow := rapid.IntRange(0, 3).Draw(t, "slow") == 0
+		desc := fmt.Sprintf("channels=%d frames=%d chunk=%d v2=%v slowConsumer=%v", nch, nfr, chunk, v2, slow)
+		pipes := make([]*sim.Pipe, nch)
+		var endpoints []gomavlib.EndpointConf
+		for i := range pipes {
+			pipes[i] = sim.NewPipe()
+			endpoints = append(endpoints, gomavlib.EndpointCustom{ReadWriteCloser: pipes[i]})
+		}
+		n := &gomavlib.Node{Endpoints: endpoints, Dialect: ardupilotmega.Dialect, OutVersion: gomavlib.V2, OutSystemID: 11, HeartbeatDisable: true}
+		if err := n.Initialize(); err != nil {
+			t.Fatalf("BROKEN: %v", err)
+		}
+		pacing := sim.Pacing{Kind: "fast"}
+		if slow {
+			pacing = sim.Pacing{Kind: "bursty", Burst: 50, Sleep: 200 * time.Microsecond}
+		}
+		r := sim.StartRecorder(n, pacing, nil)
+		var wg sync.WaitGroup
+		for i, p := range pipes {
+			wg.Add(1)
+			go func(i int, p *sim.Pipe) {
+				defer wg.Done()
+				var stream []byte
+				for k := 0; k < nfr; k++ {
+					stream = append(stream, tagged(byte(i+1), k, "debug", v2, nil, 0).Bytes()...)
+				}
+				for len(stream) > 0 {
+					c := chunk
+					if c > len(stream) {
+						c = len(stream)
+					}
+					p.Feed(stream[:c])
+					stream = stream[c:]
+				}
+			}(i, p)
+		}
+		wg.Wait()
+		ok := r.WaitFor(bound, func(recs []sim.Rec) bool {
+			k := 0
+			for _, e := range recs {
+				switch e.Ev.(type) {
+				case *gomavlib.EventFrame, *gomavlib.EventParseError:
+					k++
+				}
+			}
+			return k >= nch*nfr
+		})
+		closeNode(n, bound) //nolint:errcheck
+		r.WaitClosed(bound)
+		next := make([]int, nch)
+		for _, e := range r.Snapshot() {
+			switch ev := e.Ev.(type) {
+			case *gomavlib.EventParseError:
+				t.Fatalf("%s: parse error on a stream of valid frames: %v", desc, ev.Error)
+			case *gomavlib.EventFrame:
+				ci := -1
+				for i, p := range pipes {
+					if isPipeChannel(ev.Channel, p) {
+						ci = i
+					}
+				}
+				tag, idx, okid := identify(ev.Frame)
+				if ci < 0 || !okid || int(tag) != ci+1 || idx != next[ci] {
+					evid.ReplayNote("C10", "TestC10ConcurrentStreams", fmt.Sprintf("%s: channel %d expected frame #%d, got tag=%d idx=%d ok=%v: %+v", desc, ci, next[max0(ci)], tag, idx, okid, ev.Frame.GetMessage()))
+					t.Fatalf("%s: channel %d: expected its own frame #%d, the event carries tag=%d idx=%d (recognised=%v): %+v — content of another channel / frame", desc, ci, next[max0(ci)], tag, idx, okid, ev.Frame.GetMessage())
+				}
+				next[ci]++
+			}
+		}
+		if !ok {
+			t.Fatalf("%s: only %v of %d frames per channel surfaced within %v", desc, next, nfr, bound)
+		}
+		var cls []string
+		if nch >= 3 {
+			cls = append(cls, "3+channels")
+		}
+		rec.Case(nch >= 3, evid.HashS(desc), cls...)
+		rec.Sample("streams", desc)
+	})
+}
+
+func max0(i int) int {
+	if i < 0 {
+		return 0
+	}
+	return i
+}
